@@ -346,15 +346,18 @@ def diff_maps(a, b):
 
 # ------------------------------------------------------------------ generation
 def gen_job(seed, profile):
+    """agree: macros of the agreeing region only (plus, sometimes, a `revert` for the both-installed twin).
+    full: the same with exactly ONE macro of the excluded region somewhere, so that a later difference is attributed
+    to one excluded operation (`modes-differ:<op>`) unambiguously."""
     rng = S.Rng(seed ^ 0x13C)
-    pool = R.MACROS_AGREE if profile == "agree" else R.MACROS_FULL
     n = 2 + rng.below(2)
-    macros = []
-    for _ in range(n):
-        macros.append([rng.pick(pool), {}])
-    if profile == "agree" and rng.chance(1, 3):
+    macros = [[rng.pick(R.MACROS_AGREE), {}] for _ in range(n)]
+    if profile == "full":
+        excluded = [m for m in R.MACROS_FULL if m not in R.MACROS_AGREE and m != "revert"]
+        macros[rng.below(len(macros))] = [rng.pick(excluded), {}]
+    elif rng.chance(1, 3):
         macros.append(["revert", {}])
-    return {"seed": seed, "macros": macros, "profile": profile, "max_ops": 16}
+    return {"seed": seed, "macros": macros, "profile": profile, "max_ops": 22}
 
 
 def load_corpus():
